@@ -84,3 +84,12 @@ Theorem c05_addref_is_source :
                    Forall (fun s => match s with SIncDec _ _ | SAssign _ _ _ => False | _ => True end) (pre ++ post).
 Proof. exact Decisions.addref_is_increment. Qed.
 Print Assumptions c05_addref_is_source.
+
+(* Flush pins the collections in NAME order: both of its loops range over the sorted name list *)
+Theorem c05_flush_pins_in_name_order_is_source :
+  In (SAssign [GVar "cnames"] ":=" [GCall "collNames" [GVar "coll"]]) (body "Store.Flush") /\
+  (exists b1 b2, ranges (body "Store.Flush") = [(GVar "cnames", b1); (GVar "cnames", b2)] /\
+                 In "c.rootAddRef" (calls 50 b1) /\ In "coll[name].write" (calls 50 b2)) /\
+  (exists pre, body "collNames" = pre ++ [SExpr (GCall "sort.Strings" [GVar "res"]); SReturn [GVar "res"]]).
+Proof. exact Decisions.flush_pins_in_name_order. Qed.
+Print Assumptions c05_flush_pins_in_name_order_is_source.
